@@ -127,6 +127,28 @@ Print Assumptions C09_add_switch.
 Print Assumptions C09_add_unvalidated.
 Print Assumptions C09_switch_last.
 
+(* ---- the switch across threads.  The model's switch is ONE cell for the whole process (Super.sess_run carries one boolean).
+   Instance obligation switch_is_plain_global: ENABLED is a bool literal assigned to a module-level name of a module that contains
+   nothing else, and the helpers assign/read that attribute: a cell shared by all threads.  The correspondence run records, after
+   every operation issued from the main thread, a pool worker or a thread started for it, what every live thread observes
+   (ts_seen); when the recorded trace has no mismatch, every thread saw the position determined by the switch operations so far,
+   whichever thread issued them. *)
+Theorem C09_switch_every_thread : forall l st, switch_trace_mismatches st 0 l = [] ->
+  forall pre s post, l = (pre ++ s :: post)%list -> forall tv, In tv (ts_seen s) ->
+  snd tv = sw_run st (trace_ops (pre ++ [s])).
+Proof. intros l st. exact (trace_sound l st 0). Qed.
+Print Assumptions C09_switch_every_thread.
+
+Theorem C09_switch_thread_irrelevant : forall st l1 l2,
+  map ts_op l1 = map ts_op l2 -> sw_run st (trace_ops l1) = sw_run st (trace_ops l2).
+Proof. exact trace_thread_irrelevant. Qed.
+Print Assumptions C09_switch_thread_irrelevant.
+
+Theorem C09_switch_is_plain_global :
+  switch_plain_globalb Gen_Members.switch_module Gen_Members.switch_helpers Gen_Members.switch_binding Gen_Members.switch_uses = true.
+Proof. exact Inst_C09.switch_is_plain_global. Qed.
+Print Assumptions C09_switch_is_plain_global.
+
 (* ---- on the tables of this run (199 classes today) *)
 Definition M := Gen_Members.M.
 Definition members_now := members_of (fun l => l) M.
